@@ -33,6 +33,7 @@ def run(ctx, chk):
     chk.rule("P2", "ack-able requests: at most one send per path, only via the ack helper; handler-calling paths pass the ack helper exactly once, after the handler")
     chk.rule("P3", "ack helper: sends iff reply_ack_enabled && NEED_REPLY; value 0 iff Ok; returns the handler result")
     chk.rule("P4", "reply_ack_enabled = offered virtio PROTOCOL_FEATURES && acked protocol REPLY_ACK; recomputed after every input change")
+    chk.rule("P9", "the payload length given to the reply-header constructor is the length of the payload sent with that header")
     chk.rule("P5", "reply header: request's code, flags REPLY, size = size_of body + payload length")
     chk.rule("P6", "one header receive and one body receive of exactly hdr.size bytes per request; no other reads")
     run_on(fb, chk)
@@ -149,6 +150,7 @@ def run_on(fb, chk, tag=""):
     p4(fb, chk, hr, tag)
     p5(fb, chk, tag)
     p6(fb, chk, sm, tag)
+    p9(fb, chk, tag)
 
 
 def _derives(arg, hres, sm, flat):
@@ -339,6 +341,47 @@ def p5(fb, chk, tag):
             probs.add("size is %s (must be size_of::<T>() + payload length)" % (show(size)[:60] if size is not None else None))
     chk.check(not probs, "P5", tag + "reply-header", "code <- request's, flags = version|REPLY, size = size_of::<T>() + payload (%d success paths)" % len(hs),
               "reply header: %s" % "; ".join(sorted(probs)), f.loc())
+
+
+def p9(fb, chk, tag):
+    """The size announced in a reply header is the size of what the same send puts on the wire: body only (payload
+    length 0) for send_message, body + payload.len() for send_message_with_payload."""
+    n = 0
+    for adt in ("BackendReqHandler", "FrontendReqHandler"):
+        for f in fb.find(self_adt=adt):
+            if f.trait:
+                continue
+            m = None
+            for bb, t, c in sites(f, name={"send_message", "send_message_with_payload"}):
+                if not (resolved(c).get("self_adt") or c.get("self_adt") or "").endswith("::Endpoint"):
+                    continue
+                m = m or must_of(fb, f)
+                args = m.sym.arg_terms(bb)
+                hdr = args[1]
+                ctor = None
+                for x in subterms(hdr):
+                    if x[0] == "call" and x[1] == "new_reply_header" and len(x[2]) >= 3:
+                        ctor = x
+                if ctor is None:
+                    continue
+                n += 1
+                size_arg = ctor[2][2]
+                if c["name"] == "send_message":
+                    ok = const_eval(fb, m.sym, size_arg) == 0
+                    want = "0 (no payload is sent)"
+                else:
+                    pay = args[3]
+                    pr, _c = peel(pay)
+                    sr = size_arg
+                    while sr[0] == "cast":
+                        sr = sr[1]
+                    ok = sr[0] == "call" and sr[1] == "len" and peel(sr[2][0])[0] == pr
+                    want = "payload.len() of the payload sent (%s)" % show(pay)[:40]
+                chk.check(ok, "P9", "%s%s:%s@%d" % (tag, f.short, c["name"], n), "header size = body + what is sent",
+                          "%s sends a reply whose header was sized with payload length %s, but the send carries %s: the peer reads past the "
+                          "reply (or waits for bytes that never come) and the next reply is misparsed" % (f.short, show(size_arg)[:50], want),
+                          f.loc(t["line"]))
+    chk.floor("P9", n, 2)
 
 
 def p6(fb, chk, sm, tag):
